@@ -51,3 +51,8 @@ Print Assumptions C01_schedule_check_sound.
 
 (* the semifield hypotheses are satisfiable: the non-negative rationals the model is executed on *)
 Example C01_instance : SF. Proof. exact QnnSF. Qed.
+(* the structural hypotheses are satisfiable by a tree with a fill-in-free chain of three cliques ab - bc - cd and its two-pass
+   schedule: all the computable conditions (structure, schedule validity and completeness, junction-tree conditions for every root) hold *)
+Example C01_chain_meets_hypotheses :
+  jt_okb [0; 1; 2; 3] 3 (fun c => [c; S c]) (fun c => match c with 0 => [1] | 1 => [0; 2] | _ => [1] end) [(0, 1); (2, 1); (1, 0); (1, 2)] = true.
+Proof. vm_compute. reflexivity. Qed.
